@@ -126,6 +126,12 @@ func (b *Board) IsCheckmate() bool {
 	aSq := attacker.LowestSet()
 	blocked := attacks.InBetween[kingSq][aSq] & ^(king | attacker)
 
+	// the en passant capture lands between the king and the attacker (the en
+	// passant square is only set when the capture is legal)
+	if b.EnPassant != 0 && blocked&(BitBoard(1)<<b.EnPassant) != 0 {
+		return false
+	}
+
 	defenders = b.Block(blocked, b.STM)
 
 	for ; defenders != 0; defenders &= defenders - 1 {
